@@ -69,6 +69,7 @@ pub struct Wd {
     counter: usize,
 }
 
+static HOOK_CALLS: AtomicUsize = AtomicUsize::new(0);
 static WORLD_NEW_MODE: AtomicUsize = AtomicUsize::new(0); // 0 ok, 1 err, 2 panic while polled, 3 panic when called
 
 impl World for Wd {
@@ -259,8 +260,10 @@ pub fn run(lines: Vec<Vec<String>>, raw: String) {
 }
 
 fn inner(lines: Vec<Vec<String>>, raw: String) -> Vec<String> {
-    // silence the default panic output of scripted failures
-    std::panic::set_hook(Box::new(|_| {}));
+    // the process panic hook: silent, but it COUNTS what reaches it (scripted failures must not: the runner silences the hook)
+    std::panic::set_hook(Box::new(|_| {
+        HOOK_CALLS.fetch_add(1, Ordering::SeqCst);
+    }));
     T0.with(|t| *t.borrow_mut() = Some(Instant::now()));
     // features (verbatim text blocks)
     let mut items: Vec<(usize, Option<parser::Result<gherkin::Feature>>)> = vec![];
@@ -389,11 +392,22 @@ fn inner(lines: Vec<Vec<String>>, raw: String) -> Vec<String> {
         r = r.given(re2.clone(), step_fn).when(re2.clone(), step_fn).then(re2, step_fn);
     }
     let hooks = lines.iter().find(|l| l[0] == "hooks").map_or("none".to_owned(), |l| l[1].clone());
-    let parser_stream = Lazy { items, idx: 0, polls: 0 };
+    // `runs <n>`: n runs one after the other in this process (process-wide state is carried over)
+    let runs: usize = lines.iter().find(|l| l[0] == "runs").map_or(1, |l| l[1].parse().unwrap());
     let mut out: Vec<String> = vec![];
     macro_rules! drive {
         ($runner:expr) => {{
-            let mut s = $runner.run(parser_stream, cli);
+            let parser_stream = Lazy {
+                items: items.iter().map(|(l, it)| (*l, match it {
+                    None => None,
+                    Some(Ok(f)) => Some(Ok(f.clone())),
+                    Some(Err(e)) => Some(Err(e.clone())),
+                })).collect(),
+                idx: 0,
+                polls: 0,
+            };
+            let before_calls = HOOK_CALLS.load(Ordering::SeqCst);
+            let mut s = $runner.run(parser_stream, cli.clone());
             futures::executor::block_on(async {
                 while let Some(ev) = s.next().await {
                     let line = match ev {
@@ -403,13 +417,22 @@ fn inner(lines: Vec<Vec<String>>, raw: String) -> Vec<String> {
                     log(format!("EV {line}"));
                 }
             });
+            drop(s);
+            let during = HOOK_CALLS.load(Ordering::SeqCst) - before_calls;
+            // afterwards the hook that was installed before the run must be back: a probe panic reaches it
+            let p0 = HOOK_CALLS.load(Ordering::SeqCst);
+            let _ = std::panic::catch_unwind(|| panic!("probe"));
+            let reached = HOOK_CALLS.load(Ordering::SeqCst) - p0;
+            log(format!("HOOK during_run={during} probe_reached={reached}"));
         }};
     }
-    match hooks.as_str() {
-        "none" => drive!(r),
-        "before" => drive!(r.before(before_fn)),
-        "after" => drive!(r.after(after_fn)),
-        _ => drive!(r.before(before_fn).after(after_fn)),
+    for _run in 0..runs {
+        match hooks.as_str() {
+            "none" => drive!(r.clone()),
+            "before" => drive!(r.clone().before(before_fn)),
+            "after" => drive!(r.clone().after(after_fn)),
+            _ => drive!(r.clone().before(before_fn).after(after_fn)),
+        }
     }
     LOG.with(|l| {
         for x in l.borrow().iter() {
